@@ -27,6 +27,7 @@ from .. import core, mmx, proto as P
 
 NS = (0, 1, 2, 63, 64, 65, 127, 128, 129, 300)
 BASE = 2000  # first data type id used
+FAILT = 1999  # Q's type: published while Q cannot accept data
 PIDS = {21: 777, 22: 888, 60: 999}
 
 
@@ -38,11 +39,23 @@ def contents(tier: str) -> List[Tuple[int, str]]:
             out.append((n, "triple"))
     out.append((2, "odd"))
     out.append((0, "odd"))
+    # the upper half of the type table and its middle; deliveries that fail (the manager's own FAILED_MESSAGE is traffic too)
+    out.append((2, "high"))
+    out.append((65, "high"))
+    out.append((5, "edge"))
+    out.append((2, "failed"))
     return out
 
 
 def interval_frames(tc, n: int, pattern: str, salt: int) -> List[bytes]:
     frames = []
+    if pattern == "high":
+        return [P.mkframe(P.MAX_MESSAGE_TYPES - 1 - 3 * k - salt, b"", timecode=tc, src_mod_id=21) for k in range(n)]
+    if pattern == "edge":
+        half = P.MAX_MESSAGE_TYPES // 2
+        return [P.mkframe(mt, b"", timecode=tc, src_mod_id=21) for mt in (half - 1, half, half + 1, P.MAX_MESSAGE_TYPES - 1, P.MAX_MESSAGE_TYPES - 2)]
+    if pattern == "failed":
+        return [P.mkframe(FAILT, b"x" * 8, timecode=tc, src_mod_id=21) for k in range(n)]
     for k in range(n):
         mt = BASE + ((k * 7 + salt * 13) % 997 if n < 900 else k)
         frames.append(P.mkframe(mt, b"", timecode=tc, src_mod_id=21))
@@ -78,7 +91,8 @@ def execute(case) -> Dict[str, Any]:
                + P.mkframe(P.MT_SUBSCRIBE, P.p_sub(P.ALL_MESSAGE_TYPES), timecode=tc, src_mod_id=60))
         Pp.send(P.mkframe(P.MT_CONNECT, P.p_connect(), timecode=tc, src_mod_id=21)
                 + P.mkframe(P.MT_MODULE_READY, P.P_READY.pack(PIDS[21]), timecode=tc, src_mod_id=21))
-        Q.send(P.mkframe(P.MT_CONNECT_V2, P.p_connect_v2(0, 0, 0, 22, PIDS[22], b"q"), timecode=tc, src_mod_id=22))
+        Q.send(P.mkframe(P.MT_CONNECT_V2, P.p_connect_v2(0, 0, 0, 22, PIDS[22], b"q"), timecode=tc, src_mod_id=22)
+               + P.mkframe(P.MT_SUBSCRIBE, P.p_sub(FAILT), timecode=tc, src_mod_id=22))
         w.settle()
         # baseline: flush both reports once; from here on the observer sees everything that is counted
         w.tick(1.05)
@@ -167,6 +181,10 @@ def execute(case) -> Dict[str, Any]:
                     observe()
                 Pp.send(big)
                 w.settle()
+            elif pattern == "failed":
+                Pp.send(b"".join(frames))
+                w.step(0, nonwritable=["Q"])
+                w.settle(limit=10 ** 6)
             else:
                 Pp.send(b"".join(frames))
                 w.settle(limit=10 ** 6)
